@@ -127,7 +127,10 @@ def setter_rules(F, D, res, adts):
                         n_coll += 1
                         for pc_, val, ex_, how in recs:
                             va = atoms_of_value(val)
-                            from_args = bool(va) and va <= arg_atoms | {a for a in va if a[0] in ("base",) and a in arg_atoms}
+                            # built from the arguments and constants only (literal buffers are constants); that no argument is
+                            # dropped is the setter-effect rule below
+                            consts = {a for a in va if "'lit'" in repr(a) and not any(repr(x) in repr(a) for x in arg_atoms)}
+                            from_args = bool(va - consts) and (va - consts) <= arg_atoms
                             kind = old.kind
                             if how == "remove":
                                 good, what = from_args, "removes the key given as argument (idempotent)"
